@@ -920,3 +920,160 @@ Example spec_deny_skip_no_leak :
   let rs := [ex_rule 1 1 None [ADeny; ASkip 2]; ex_rule 2 1 None []; ex_rule 3 5 None []; ex_rule 4 5 None []] in
   map (fun p => fl_evaluated_in p (s_ev (fl_run MOn [] rs))) [1; 2; 3; 4; 5] = [[1]; []; []; []; [3; 4]].
 Proof. vm_compute. reflexivity. Qed.
+
+(* ================================================================================== *)
+(* removals: ranges, configure time, inherited disruptive actions                      *)
+(* ================================================================================== *)
+
+(* the id list standing for ctl:ruleRemoveById=lo-hi has exactly the range's membership test *)
+Theorem range_membership id lo hi :
+  existsb (Nat.eqb id) (fl_range lo hi) = (lo <=? id) && (id <=? hi).
+Proof.
+  apply eq_true_iff_eq. rewrite existsb_exists, andb_true_iff, !Nat.leb_le. unfold fl_range. split.
+  - intros (x & IN & E). apply Nat.eqb_eq in E. subst x. apply in_seq in IN. lia.
+  - intros [A B]. exists id. split; [apply in_seq; lia | apply Nat.eqb_refl].
+Qed.
+
+(* ---- SecDefaultAction / block ---- *)
+
+Theorem resolve_inherits da src : existsb fl_sact_is_da src = false ->
+  fl_resolve_acts (Some da) src = flat_map fl_sact_keep src ++ match da with Some a => [a] | None => [] end.
+Proof. intro H. unfold fl_resolve_acts. rewrite H. reflexivity. Qed.
+
+Theorem resolve_own_da dflt src : existsb fl_sact_is_da src = true ->
+  fl_resolve_acts dflt src = flat_map fl_sact_keep src.
+Proof. intro H. unfold fl_resolve_acts. destruct dflt; [rewrite H|]; reflexivity. Qed.
+
+Theorem resolve_no_default src : fl_resolve_acts None src = flat_map fl_sact_keep src.
+Proof. reflexivity. Qed.
+
+(* block alone with a default deny / allow: the rule acts exactly as if it said deny / allow *)
+Theorem resolve_block a flow :
+  forallb (fun x => match x with SA (ASkip _) | SA (ASkipAfter _) => true | _ => false end) flow = true ->
+  fl_resolve_acts (Some (Some a)) (SBlock :: flow) = flat_map fl_sact_keep flow ++ [a].
+Proof.
+  intro F. rewrite resolve_inherits; [reflexivity|]. cbn [existsb fl_sact_is_da orb].
+  induction flow as [|x t IH]; [reflexivity|]. cbn [forallb] in F. apply andb_true_iff in F as [F1 F2].
+  cbn [existsb]. rewrite (IH F2). destruct x as [[| | |]| |]; try discriminate; reflexivity.
+Qed.
+
+(* ---- SecRuleRemoveById ---- *)
+
+Theorem delete_range_spec rs lo hi r :
+  In r (fl_delete rs (RmRange lo hi)) <-> In r rs /\ ~ (lo <= r_id r <= hi).
+Proof.
+  cbn [fl_delete]. rewrite filter_In. cbn [fl_rm_hit].
+  rewrite negb_true_iff, andb_false_iff, !Nat.leb_gt. split; intros [A B]; (split; [exact A | lia]).
+Qed.
+
+(* with unique ids, removing an id removes every rule carrying it and nothing else, order kept *)
+Theorem delete_first_unique id rs : NoDup (map r_id rs) ->
+  fl_delete_first id rs = filter (fun r => negb (r_id r =? id)) rs.
+Proof.
+  induction rs as [|r t IH]; intro ND; [reflexivity|].
+  cbn [map] in ND. inversion ND as [|? ? NI ND']; subst.
+  cbn [fl_delete_first filter]. destruct (r_id r =? id) eqn:E; cbn [negb].
+  - apply Nat.eqb_eq in E. symmetry. 
+    assert (H : forall x, In x t -> negb (r_id x =? id) = true).
+    { intros x IN. apply negb_true_iff, Nat.eqb_neq. intro EQ. apply NI. rewrite E, <- EQ. apply in_map. exact IN. }
+    clear -H. induction t as [|y t IH]; [reflexivity|]. cbn [filter].
+    rewrite (H y (or_introl eq_refl)). f_equal. apply IH. intros x IN. apply H. right. exact IN.
+  - f_equal. apply IH. exact ND'.
+Qed.
+
+(* outside that guard (SecMarkers all carry id 0): only the first one goes *)
+Example delete_first_only_first :
+  fl_delete [fl_marker 1; fl_marker 2; fl_marker 1] (RmId 0) = [fl_marker 2; fl_marker 1].
+Proof. reflexivity. Qed.
+
+Lemma configure_from_app defs acc ds1 ds2 :
+  fl_configure_from defs acc (ds1 ++ ds2) =
+  fl_configure_from (fold_left (fun d x => match x with DDefault p da => d ++ [(p, da)] | _ => d end) ds1 defs)
+                    (fl_configure_from defs acc ds1) ds2.
+Proof.
+  revert defs acc. induction ds1 as [|d t IH]; intros defs acc; [reflexivity|].
+  destruct d; cbn [app fl_configure_from fold_left]; apply IH.
+Qed.
+
+(* a SecRuleRemoveById at the end of the configuration acts on everything configured before it *)
+Theorem configure_remove_last ds l :
+  fl_configure (ds ++ [DRemove l]) = fold_left fl_delete l (fl_configure ds).
+Proof. unfold fl_configure. rewrite configure_from_app. reflexivity. Qed.
+
+(* a rule read when its phase has a SecDefaultAction deny/allow and that says block (or nothing
+   disruptive) is configured with that action behind its own flow actions *)
+Theorem configure_rule_last ds r sa :
+  fl_configure (ds ++ [DRule r sa]) =
+  fl_configure ds ++
+  [fl_set_acts r (fl_resolve_acts
+     (fl_find_default (fold_left (fun d x => match x with DDefault p da => d ++ [(p, da)] | _ => d end) ds [])
+                      (r_phase r)) sa)].
+Proof. unfold fl_configure. rewrite configure_from_app. reflexivity. Qed.
+
+(* ---- a removed rule is as good as absent ---- *)
+
+Definition rm_rel (extra : list nat) (s s' : fl_st) : Prop :=
+  s_skip s = s_skip s' /\ s_after s = s_after s' /\ s_allow s = s_allow s' /\ s_intr s = s_intr s' /\
+  s_dintr s = s_dintr s' /\ s_eng s = s_eng s' /\ s_ev s = s_ev s' /\
+  forall r, fl_live (s_rm s') r = fl_live (s_rm s) r && fl_live extra r.
+
+Lemma rm_rel_evaluate extra req p x s s' : rm_rel extra s s' ->
+  rm_rel extra (fl_evaluate req p x s) (fl_evaluate req p x s').
+Proof.
+  intros (SK & AF & AL & I & D & EN & EV & L). rewrite !evaluate_spec. unfold rm_rel. cbn.
+  rewrite SK, AF, AL, I, D, EN, EV. repeat split.
+  intro r. rewrite !live_app, L.
+  destruct (fl_live (s_rm s) r), (fl_live extra r), (fl_live (fl_prefix_rm req (r_links x)) r); reflexivity.
+Qed.
+
+Lemma rm_rel_set_after extra m s s' : rm_rel extra s s' -> rm_rel extra (set_after m s) (set_after m s').
+Proof. intros (SK & AF & AL & I & D & EN & EV & L). unfold rm_rel; cbn. repeat split; auto. Qed.
+Lemma rm_rel_set_skip extra k s s' : rm_rel extra s s' -> rm_rel extra (set_skip k s) (set_skip k s').
+Proof. intros (SK & AF & AL & I & D & EN & EV & L). unfold rm_rel; cbn. repeat split; auto. Qed.
+Lemma rm_rel_set_allow extra a s s' : rm_rel extra s s' -> rm_rel extra (set_allow a s) (set_allow a s').
+Proof. intros (SK & AF & AL & I & D & EN & EV & L). unfold rm_rel; cbn. repeat split; auto. Qed.
+
+Lemma rm_rel_loop extra req p : forall rs s s', rm_rel extra s s' ->
+  rm_rel extra (fl_eval_loop req p (filter (fl_live extra) rs) s) (fl_eval_loop req p rs s').
+Proof.
+  induction rs as [|x t IH]; intros s s' R; [exact R|].
+  pose proof R as (SK & AF & AL & I & D & EN & EV & L).
+  assert (HH : fl_halted p s = fl_halted p s') by (unfold fl_halted; rewrite I; reflexivity).
+  cbn [filter]. destruct (fl_live extra x) eqn:LX.
+  - cbn [fl_eval_loop]. rewrite <- HH. destruct (fl_halted p s); [exact R|].
+    destruct (negb (fl_in_phase p x)); [apply IH; exact R|].
+    rewrite !removed_live, L, LX, andb_true_r.
+    destruct (negb (fl_live (s_rm s) x)); [apply IH; exact R|].
+    rewrite <- AF. destruct (s_after s) as [m|].
+    { destruct (opt_nat_eqb (r_mark x) (Some m)); apply IH; [|exact R].
+      apply rm_rel_set_after. exact R. }
+    rewrite <- SK. destruct (s_skip s) as [|k].
+    2:{ apply IH. apply rm_rel_set_skip. exact R. }
+    unfold fl_allow_break. rewrite <- AL.
+    destruct (s_allow s) as [[| |]|] eqn:ALS.
+    + exact R.
+    + destruct (p =? 1); [exact R|]. destruct (p =? 2).
+      * apply rm_rel_set_allow. exact R.
+      * apply IH. apply rm_rel_evaluate. exact R.
+    + destruct (p =? 5); [|exact R]. apply IH. apply rm_rel_evaluate. exact R.
+    + apply IH. apply rm_rel_evaluate. exact R.
+  - cbn [fl_eval_loop]. rewrite <- HH. destruct (fl_halted p s) eqn:H.
+    { rewrite halted_loop by exact H. exact R. }
+    destruct (negb (fl_in_phase p x)); [apply IH; exact R|].
+    rewrite removed_live, L, LX, andb_false_r. cbn [negb]. apply IH. exact R.
+Qed.
+
+(* evaluating a rule set from which the rules hit by `extra` were deleted (configure time) shows the
+   same as evaluating the full rule set in a transaction that starts with `extra` removed (run time):
+   removed rules are not evaluated, not counted by skip, not found by skipAfter *)
+Theorem removed_as_absent extra req p rs s :
+  fl_obs (fl_eval_phase req p (filter (fl_live extra) rs) s) = fl_obs (fl_eval_phase req p rs (add_rm extra s)).
+Proof.
+  unfold fl_eval_phase.
+  assert (R : rm_rel extra s (add_rm extra s)).
+  { unfold rm_rel; cbn. repeat split. intro r. apply live_app. }
+  destruct (rm_rel_loop extra req p rs s _ R) as (_ & _ & _ & I & D & _ & EV & _).
+  destruct (end_phase_obs (fl_eval_loop req p (filter (fl_live extra) rs) s)) as [O1 _].
+  destruct (end_phase_obs (fl_eval_loop req p rs (add_rm extra s))) as [O2 _].
+  rewrite O1, O2. unfold fl_obs. rewrite I, D, EV. reflexivity.
+Qed.
